@@ -3,6 +3,7 @@ import os
 
 from vf import driver
 from contracts.c import allc
+from specs import layout as L
 
 PID = 'C01'
 FUNCS = ['complete_sflags', 'get_alignment', 'force_lazy_struct', 'detect_custom_layout', '_add_field',
@@ -18,7 +19,7 @@ def concretise(ob, model):
 
 def main(tier, seed):
     return driver.run_property(
-        PID, tier, seed, c_part=(allc.R, FUNCS), concretise=concretise,
+        PID, tier, seed, c_part=(allc.R, FUNCS), concretise=concretise, lemmas=L.lemmas,
         layout_types=('PyObject', 'PyTypeObject', 'CTypeDescrObject', 'CFieldObject', 'PyListObject'),
         trusted=[], technique="contract-based deductive verification: loop-body refinement of a bit-coordinate ABI "
                               "layout step, cvc")
